@@ -171,9 +171,9 @@ class PrepComposite(Case):
     assumptions = Prep.assumptions
     site = "preprocess_observation/composite"
 
-    def __init__(self, kind, lead):
-        self.kind, self.lead = kind, tuple(lead)
-        self.name = f"prep-{kind}-lead{'x'.join(map(str, lead)) or 'none'}"
+    def __init__(self, kind, lead, tensordict=False):
+        self.kind, self.lead, self.tensordict = kind, tuple(lead), tensordict
+        self.name = f"prep-{kind}-lead{'x'.join(map(str, lead)) or 'none'}" + ("-tensordict" if tensordict else "")
         self.members = [("a", "box1"), ("b", "discrete3"), ("c", "image")]
         self.bounds = {"container_space": kind, "members": [m for _, m in self.members], "leading_dims": list(lead), "symbolic": "every observation element"}
 
@@ -181,7 +181,11 @@ class PrepComposite(Case):
         mem = [(k, SPACES[s]) for k, s in self.members]
         if self.kind == "dict":
             space = spaces.Dict({k: s for k, s in mem})
-            obs = {k: make_obs(v, f"obs_{k}", s, self.lead, "ndarray") for k, s in mem}
+            obs = {k: make_obs(v, f"obs_{k}", s, self.lead, "tensor" if self.tensordict else "ndarray") for k, s in mem}
+            if self.tensordict:
+                from tensordict import TensorDict
+                raw_view = dict(obs)
+                obs = TensorDict(obs, batch_size=list(self.lead))
         else:
             space = spaces.Tuple([s for _, s in mem])
             obs = tuple(make_obs(v, f"obs_{k}", s, self.lead, "ndarray") for k, s in mem)
@@ -192,7 +196,7 @@ class PrepComposite(Case):
         res = [Ob("container-kind-kept", isinstance(out, dict) if self.kind == "dict" else isinstance(out, tuple))]
         for j, (k, s) in enumerate(mem):
             o = out[k] if self.kind == "dict" else out[j]
-            raw = raw_elems(obs[k] if self.kind == "dict" else obs[j])
+            raw = raw_elems((raw_view[k] if self.tensordict else obs[k]) if self.kind == "dict" else obs[j])
             want = (n,) + net_input_shape(s)
             res.append(Ob(f"member-{k}/shape", tuple(o.shape) == want))
             if tuple(o.shape) != want:
@@ -349,7 +353,7 @@ def cases(tier):
     cs += [Prep("box1", (2, 2)), Prep("discrete3", (2, 2)), Prep("multidiscrete", (2, 2)), Prep("image", (2,), normalize=False), Prep("box4", (2,)),
            Prep("box1", (2,), "tensor"), Prep("discrete3", (2,), "tensor"), Prep("box0", (), "number"), Prep("discrete3", (), "number"),
            Prep("image", (2,), "tensor"), Prep("multibinary", (2, 2))]
-    cs += [PrepComposite("dict", ()), PrepComposite("dict", (2,)), PrepComposite("tuple", (2,)), PrepComposite("tuple", ())]
+    cs += [PrepComposite("dict", ()), PrepComposite("dict", (2,)), PrepComposite("tuple", (2,)), PrepComposite("tuple", ()), PrepComposite("dict", (2,), tensordict=True)]
     for sp in ("box1", "box0", "image", "discrete3", "multidiscrete", "multibinary", "dict", "tuple"):
         cs += [VectDim(sp, ()), VectDim(sp, (3,))]
     cs += [IPPORouting(2, 2), IPPORouting(3, 1), IPPORouting(1, 2), CriticStack(2, 2), CriticStack(3, 1),
